@@ -33,7 +33,7 @@ ASSUMPTIONS = [
     "outcome does not depend on when the waiter really starts to wait",
     "wait_for_reception with nothing delivered uses a 20 ms time-out",
 ]
-BUDGET = {"quick": 50, "thorough": 400}
+BUDGET = {"quick": 150, "thorough": 400}
 NODE = 6
 
 
